@@ -345,3 +345,30 @@ func (m *AMsg) Summary() map[string]any {
 	}
 	return map[string]any{"start": m.StartLine(), "headers": strings.Join(names, ","), "body_len": len(m.Body), "eol": fmt.Sprintf("%q", m.EOL)}
 }
+
+// stampModel: the sender's entry as the statement says it must leave the proxy.
+func stampModel(v AVia, on bool, srcIP string, srcPort int) AVia {
+	if !on {
+		return v
+	}
+	out := v
+	out.Params = nil
+	hadRcv := false
+	for _, p := range v.Params {
+		switch p.K {
+		case "received":
+			if hadRcv {
+				continue
+			}
+			hadRcv = true
+			p.V, p.HasV = srcIP, true
+		case "rport":
+			p.V, p.HasV = strconv.Itoa(srcPort), true
+		}
+		out.Params = append(out.Params, p)
+	}
+	if !hadRcv {
+		out.Params = append(out.Params, AParam{K: "received", V: srcIP, HasV: true})
+	}
+	return out
+}
